@@ -1,3 +1,58 @@
-From FS Require Import Corr.C01.
-Theorem C01_placeholder : True. Proof. exact I. Qed.
-Print Assumptions C01_placeholder.
+(* Properties/C01.v — Policies compose as nested wrappers, in declaration order.
+   [compose]/[execute] are the Gallina mirror of executor.go + policy/policyexecutor.go + every policy
+   executor; each theorem is for an ARBITRARY inner layer, hence for every composition below it. *)
+From FS Require Import Model.Exec Proofs.ExecProofs Proofs.ExecStats Corr.C01.
+
+(* the executor's reverse loop is the right-nested application P1(P2(...Pn(fn))) in declaration order *)
+Theorem C01_compose_is_right_nesting : forall fuel pos p rest total,
+  compose fuel pos (p :: rest) total = apply_policy fuel pos p (compose fuel (S pos) rest total).
+Proof. exact compose_is_right_nesting. Qed.
+Print Assumptions C01_compose_is_right_nesting.
+
+(* the caller receives precisely the outermost layer's result; the completion verdict is its SuccessAll;
+   one success-or-failure event and one done event, carrying that result, close the log *)
+Theorem C01_caller_gets_outermost_result_and_verdict : forall fuel stack w,
+  let '(r, w1) := compose fuel 0 stack (length stack) 0%nat w in
+  fst (execute fuel stack w) = r /\
+  exists e1 e2, w_trace (snd (execute fuel stack w)) = e2 :: e1 :: w_trace w1
+    /\ e_kind e2 = KExecDone /\ e_kind e1 = (if pr_all r then KExecSuccess else KExecFailure)
+    /\ e_out e1 = pr_out r /\ e_out e2 = pr_out r.
+Proof. exact execute_outermost_and_verdict. Qed.
+Print Assumptions C01_caller_gets_outermost_result_and_verdict.
+
+(* the function (and everything inside) runs only when the enclosing policy admits the attempt:
+   a rejecting breaker / rate limiter / full bulkhead / cache hit yields a result that does not
+   depend on what it wraps *)
+Theorem C01_breaker_rejection_skips_inner : forall pos inst (inner inner' : layer) c w,
+  let '(cfg, s) := nth inst (w_breakers w) (bcfg_default, cb_init bcfg_default) in
+  fst (fst (try_acquire conc_impl cfg s (w_now w))) = false ->
+  breaker_layer pos inst inner c w = breaker_layer pos inst inner' c w
+  /\ pr_err (fst (breaker_layer pos inst inner c w)) = Some EOpen.
+Proof. exact breaker_rejection_skips_inner. Qed.
+Print Assumptions C01_breaker_rejection_skips_inner.
+
+Theorem C01_limiter_rejection_skips_inner : forall pos inst mw (inner inner' : layer) c w,
+  let '(cfg, base, s) := nth inst (w_limiters w) (Smooth 1, 0, SSmooth 0) in
+  fst (lim_acquire cfg s (w_now w - base) 1 mw) = -1 ->
+  limiter_layer pos inst mw inner c w = limiter_layer pos inst mw inner' c w
+  /\ pr_err (fst (limiter_layer pos inst mw inner c w)) = Some ERate.
+Proof. exact limiter_rejection_skips_inner. Qed.
+Print Assumptions C01_limiter_rejection_skips_inner.
+
+Theorem C01_bulkhead_full_skips_inner : forall pos inst (inner inner' : layer) c w,
+  let '(cap, held) := nth inst (w_bulkheads w) (0, 0) in
+  cap <= held -> copy_err w c = None ->
+  bulkhead_layer pos inst 0 inner c w = bulkhead_layer pos inst 0 inner' c w
+  /\ pr_err (fst (bulkhead_layer pos inst 0 inner c w)) = Some EFull.
+Proof. exact bulkhead_full_skips_inner. Qed.
+Print Assumptions C01_bulkhead_full_skips_inner.
+
+Theorem C01_cache_hit_skips_inner : forall pos inst cfg (inner : layer) c w v,
+  cache_key w cfg <> 0 -> cache_get (nth inst (w_caches w) []) (cache_key w cfg) = Some v ->
+  cache_layer pos inst cfg inner c w = (all_true (v, None), emit w KCacheHit pos (v, None) 0).
+Proof. exact cache_hit_skips_inner. Qed.
+Print Assumptions C01_cache_hit_skips_inner.
+
+(* partial: the refinement of the flag algebra (Done/Success/SuccessAll) to flag-free per-policy
+   documented behaviours (DESIGN.md 4.1 exec_refines_nesting) is not proved; the per-layer
+   theorems of C02, C10, C11 and the correspondence on complete logs stand in for it. *)
